@@ -164,17 +164,18 @@ macro_rules! harnesses {
 
 /// A statement that must not be reachable (e.g. the one after a mandated panic).
 /// Under Kani: a cover that the driver requires to be unsatisfiable; natively: a failed check.
+/// The role literal must start with "must-be-unreachable:".
 #[macro_export]
 macro_rules! vunreachable {
     ($i:expr, $role:literal) => {{
         #[cfg(kani)]
         {
             let _ = &$i;
-            kani::cover!(true, concat!("must-be-unreachable:", $role));
+            kani::cover!(true, $role);
         }
         #[cfg(not(kani))]
         {
-            $crate::inp::Inp::fail($i, concat!("must-be-unreachable:", $role));
+            $crate::inp::Inp::fail($i, $role);
         }
     }};
 }
